@@ -31,22 +31,32 @@ def _table(r: random.Random, n: int):
     }
 
 
-def _model(table, threads, weighted):
+def _model(table, threads, weighted, mc=False):
     import pandas as pd
     import biogeme.database as db
     from biogeme.biogeme import BIOGEME
     from biogeme.parameters import Parameters
-    from biogeme.expressions import Beta, Variable, log
+    from biogeme.expressions import Beta, Variable, log, MonteCarlo, bioDraws
     from biogeme import models
 
     b1 = Beta('b1', 0.1, None, None, 0)
     b2 = Beta('b2', -0.2, None, None, 0)
     asc = Beta('asc2', 0.3, None, None, 0)
-    V = {1: b1 * Variable('x1'), 2: asc + b1 * Variable('x2'), 3: b2 * log(Variable('t3'))}
-    f = {'log_like': models.loglogit(V, None, Variable('CH'))}
+    p = Parameters()
+    if mc:
+        # random coefficient, Monte-Carlo integration over draws shared (read-only) by the engine threads;
+        # seeded so that every object of the sweep integrates over the same draws
+        rc = b1 + b2 * bioDraws('e_rc', 'NORMAL')
+        V = {1: rc * Variable('x1'), 2: asc + rc * Variable('x2'), 3: asc * log(Variable('t3'))}
+        f = {'log_like': log(MonteCarlo(models.logit(V, None, Variable('CH'))))}
+        p.set_value('seed', 4321)
+        p.set_value('number_of_draws', 12)
+    else:
+        V = {1: b1 * Variable('x1'), 2: asc + b1 * Variable('x2'), 3: b2 * log(Variable('t3'))}
+        f = {'log_like': models.loglogit(V, None, Variable('CH'))}
     if weighted:
         f['weight'] = Variable('W')
-    p = Parameters()
+    p.set_value('save_iterations', False)
     p.set_value('number_of_threads', threads, 'MultiThreading')
     bg = BIOGEME(db.Database('stress', pd.DataFrame(table)), f, parameters=p)
     bg.generate_html = False
@@ -83,7 +93,10 @@ def main():
             for n in sizes:
                 table = _table(r, n)
                 weighted = r.random() < 0.6
-                base = _model(table, 1, weighted)
+                mc = (res.get('tables', 0) % 2) == 1  # every other table integrates over draws
+                res['tables'] = res.get('tables', 0) + 1
+                res['monte_carlo_tables'] = res.get('monte_carlo_tables', 0) + int(mc)
+                base = _model(table, 1, weighted, mc)
                 xd = dict(zip(base.free_beta_names, x))
                 sim = base.simulate(xd)
                 ll = sim['log_like'].to_numpy()
@@ -98,7 +111,7 @@ def main():
                 if profile.startswith('tsan') and n > 100:
                     tlist = [2, 7, 16, 64]
                 for t in tlist:
-                    bg = _model(table, t, weighted)
+                    bg = _model(table, t, weighted, mc)
                     res['pairs'] += 1
                     res['threads_seen'].add(t)
                     first = None
